@@ -175,7 +175,7 @@ func (p *Program) NewMachine() (*Machine, error) {
 	}
 	to := p.cfg.TimeoutMS
 	if to == 0 {
-		to = 20000
+		to = 60000
 	}
 	var slog io.Writer
 	if lp := os.Getenv("GOSYM_SMTLOG"); lp != "" {
